@@ -615,6 +615,9 @@ const CORPUS: &[&str] = &[
     "p(X) <- hnsw_nearest(X)",
     "p(X) <- q(X), true = X, _ != 3",
     "p(X, - -9223372036854775808) <- q(X)",
+    // a signed non-finite float is read as a bare arithmetic leaf
+    "edge(+inf, D, Y, X) <- p()",
+    "q() <- +inf != X, +nan = Y, +1e400 < Z",
 ];
 
 // ------------------------------------------------------------------ end to end
